@@ -15,7 +15,8 @@ SPEC = {
     "technique": "Lean 4 invariant proofs (DFS stack/open-chain invariant, post-order closure, stack-depth bound) over "
                  "an executable transcription + regenerated facts + exhaustive differential correspondence",
     "trusted": [
-        "go/ast extractor harness/extract/c06 (guard chain, pre/post set roles, iterated method, closing test, extension, top-level loop of Check; whether each set is a fresh local of Check or persists in the detector; collection-typed fields of cycleDetector; fields Check assigns to)",
+        "go/ast extractor harness/extract/c06 (guard chain, pre/post set roles, iterated method, closing test, extension, top-level loop of Check; whether each set is a fresh local of Check or persists in the detector; collection-typed fields of cycleDetector; fields Check assigns to; the accessor visit iterates and the bodies of Dependencies() / BuildDependencies())",
+        "kinded graphs are declared through the public API (AddDependency, AddTool, AddSource, AddDatum, AddMaybeExportedDependency internal / run-time) and resolved by the real ResolveDependencies: no extra hook",
         "correspondence harness/cmd/c06 vs Driver/C06.lean: exact returned cycle on all 66 067 digraphs with self-loops on <= 4 targets "
         "(thorough: + all 2^20 loop-free digraphs on 5), random graphs up to 40 targets with random numbering, graphs resolved by the real "
         "ResolveDependencies with provide/require",
@@ -27,7 +28,7 @@ SPEC = {
         "the detector is not stopped (cycleDetector.stopped == false) and the graph is not mutated WHILE a Check runs (between two checks it may grow: that is modelled)",
         "the graph contains every resolved dependency of its targets (WF): BuildGraph only resolves to targets it holds",
     ],
-    "explanation": "C06_seq_stateless / C06_seq_sound / C06_seq_complete (every call of every sequence of checks on one detector is sound and complete for the graph of THAT call), C06_sound, C06_reported_simple (no target listed twice), C06_complete, C06_acyclic_not_reported, C06_iff, C06_fuel, C06_reported_listed, C06_any_order "
+    "explanation": "C06_kinds_sound / C06_kinds_complete (sound and complete over the graph of ALL resolved dependencies: deps, tools, source labels, data, run-time, internal), C06_witness_build_only_misses_data_cycle, C06_seq_stateless / C06_seq_sound / C06_seq_complete (every call of every sequence of checks on one detector is sound and complete for the graph of THAT call), C06_sound, C06_reported_simple (no target listed twice), C06_complete, C06_acyclic_not_reported, C06_iff, C06_fuel, C06_reported_listed, C06_any_order "
                    "quantify over all graphs and orders; FactsOK ties them to the shape of visit read from the source on this run.",
 }
 
@@ -53,4 +54,13 @@ Dry-runs on scratch copies of /repo (VERIF_REPO=/var/tmp/mC06 ./check C06 quick)
       `seq 0,1/0:1;1:- 0,1/0:1;1:0` ("call 2 on one detector: the graph resolved so far has a cycle but Check returned nil"), 54 oracle
       failures; facts persistPost=true / detectorCollectionFields=[complete] / checkWritesFields=[complete] break C06_facts_ok, and the
       model (runSeq with the regenerated Persist) follows the mutant: 0 disagreements.
+ S2 round-2 seed /tmp/seedout2/C06/patch.diff: visit iterates target.BuildDependencies() instead of Dependencies(), so a cycle through a
+      source-only / data / run-time / internal dependency is never reported. Graphs made with AddDependency or the hook have no such
+      edges; the harness now declares every edge with a KIND through the public API (op `kcheck`, all digraphs on <= 3 targets x six
+      kinds exhaustively = 117 698 graphs, 12 000 random ones up to 16 targets; thorough: all 3^12 graphs on 4 targets with kinds
+      d/a) and the oracle judges Check() against the graph over ALL resolved dependencies.
+      VERIF_REPO=/tmp/confirm/C06 ./check C06 quick -> exit 1, `VIOLATION property=C06 replay=…/violation-cycle-missed.json` with the
+      concrete graph `kcheck 0,1 0:1d;1:0a` (0 depends on 1, 1 has 0 as data); fact loopMethod=BuildDependencies breaks C06_facts_ok, the
+      model (kcheck with the regenerated accessor) follows the mutant: 0 disagreements, 88 850 generated graphs are cyclic only through
+      non-build dependencies.
 """
